@@ -270,7 +270,7 @@ func (w *world) fixedProbeAcrossClockWrap(base uint32, before uint32) {
 	w.setNoDelay(w.b, 1, 10, 2, 1)
 	w.setWnd(w.b, 32, 1)
 	take := func(q *[][]byte) [][]byte { o := *q; *q = nil; return o }
-	arm := base - before - 7000 // IKCP_PROBE_INIT = 7000: the flush that arms the probe timer
+	arm := base - before - kcp.IKCP_PROBE_INIT // the flush that arms the probe timer
 	w.now = arm - 30
 	w.send(w.a, []byte{1})
 	w.flush(w.a, true)
